@@ -234,23 +234,20 @@ def subPoints (r1 r2 : IntTy) (u1 u2 : PtUnit) (v1 v2 : Int) : Res Int :=
     ⟨s.val, p.wrapped || s.wrapped, p.narrowed || s.narrowed⟩
   | .ub w => ⟨.ub w, p.wrapped, p.narrowed⟩
 
-/-- `p1 <=> p2` = `p1.in(U{}) <=> p2.in(U{})`, `U = CommonPointUnitT<U1, U2>` (quantity_point.hh:389-394,
-C++20): each operand through the *implicit-rep* conversion in its own rep, then the built-in `<=>`. -/
+/-- `p1 <=> p2` = `rep_cast<R>(p1).in(U{}) <=> rep_cast<R>(p2).in(U{})`, `U = CommonPointUnitT<U1, U2>`,
+`R = common_type_t<R1, R2>` (quantity_point.hh:406-414, C++20; since the fix of finding F11/F17 the same two
+operands as `using_common_point_unit` delivers), then the built-in `<=>` on two values of type `R`. -/
 def spaceshipPoints (r1 r2 : IntTy) (u1 u2 : PtUnit) (v1 v2 : Int) : Res Ordering :=
-  let cu := commonPointUnit u1 u2
-  let p := IntTy.uac r1 r2
-  let a := inImplicit r1 u1 cu v1
-  let b := inImplicit r2 u2 cu v2
-  match a.val, b.val with
-  | .ok x, .ok y =>
-    ⟨.ok (compare (p.wrap x) (p.wrap y)), a.wrapped || b.wrapped,
-      a.narrowed || b.narrowed || decide (p.wrap x ≠ x) || decide (p.wrap y ≠ y)⟩
-  | .ub w, _ => ⟨.ub w, a.wrapped, a.narrowed⟩
-  | _, .ub w => ⟨.ub w, a.wrapped || b.wrapped, a.narrowed || b.narrowed⟩
+  let c := IntTy.common r1 r2
+  let p := IntTy.uac c c
+  let pr := commonPointPair r1 r2 u1 u2 v1 v2
+  match pr.val with
+  | .ok (x, y) =>
+    ⟨.ok (compare (p.wrap x) (p.wrap y)), pr.wrapped,
+      pr.narrowed || decide (p.wrap x ≠ x) || decide (p.wrap y ≠ y)⟩
+  | .ub w => ⟨.ub w, pr.wrapped, pr.narrowed⟩
 
-def spaceshipCompiles (r1 r2 : IntTy) (u1 u2 : PtUnit) : Bool :=
-  let cu := commonPointUnit u1 u2
-  pointLookupOk r1 r2 u1 u2 && implicitCompiles r1 u1 cu && implicitCompiles r2 u2 cu
+def spaceshipCompiles (r1 r2 : IntTy) (u1 u2 : PtUnit) : Bool := pointOpsCompile r1 r2 u1 u2
 
 /-! ### Statement-level side conditions -/
 
